@@ -77,6 +77,14 @@ def run(ctx: Ctx) -> None:
     ctx.call(T.t_s1c, "3c/T.S1c")
     ctx.call(T.t_e1, "4/T.E1")
     ctx.call(run_callers, "5")
+    from ..kinds import signature_defaults
+
+    ctx.call(signature_defaults, "9", {
+        "cartgraph/node.py:TestNode.is_started": {"worker": "None", "threshold": "1"},
+        "cartgraph/node.py:TestNode.is_finished": {"worker": "None", "threshold": "1"},
+        "cartgraph/node.py:TestNode.should_rerun": {"worker": "None"},
+        "cartgraph/node.py:TestNode.get_stateful_objects": {"do": "'set'"},
+    }, "scope-relative run decisions")
     ctx.call(N.should_rerun_table, "6")
     ctx.call(N.run_decision_table, "7")
     ctx.call(flat_raise_first, "7b")
